@@ -7,6 +7,7 @@ package h
 import (
 	"bytes"
 	"fmt"
+	"runtime"
 
 	"github.com/rminnich/go9p"
 	"github.com/rminnich/go9p/vsim/rt"
@@ -53,6 +54,15 @@ func c09Gen(seed uint64, run int, tier string) *Case {
 			c.Cfg["lrcallers"] = 1
 			c.Cfg["longrun"] = 70000
 			c.Cfg["maxsteps"] = 70000*80 + 100000
+			return c
+		}
+		if (tier == "thorough" && run%(4*every) == 2*every) || (tier != "thorough" && run%1000 == 600) {
+			// the wide long run again, with the garbage collector running twice between rounds: whatever caches the
+			// client keeps idle request slots in, a collection must not cost it their tags
+			c.Stratum = "long-run-wide-gc"
+			c.Cfg["lrcallers"], c.Cfg["lrwidth"], c.Cfg["lrgc"] = 1, 64, 1
+			c.Cfg["longrun"] = 72000
+			c.Cfg["maxsteps"] = 72000*60 + 100000
 			return c
 		}
 		if run%(2*every) == 0 && (tier == "thorough" || run%1000 == 100) {
@@ -225,6 +235,11 @@ func c09Exec(x *Ctx) {
 						}
 						for _, r := range reqs {
 							clnt.ReqFree(r)
+						}
+						if c.cfg("lrgc") != 0 {
+							runtime.GC()
+							runtime.GC()
+							x.Fault("gc-between-rounds")
 						}
 					}
 				})
